@@ -28,12 +28,12 @@ let snapshot pl (s : st) =
   let blk = List.fold_left (fun a nd -> a + int_of_nat nd.n_blk) 0 s.s_nodes in
   let mp = List.fold_left (fun a nd -> a + (match nd.n_chunk with Some _ -> 1 | None -> 0)) 0 s.s_nodes in
   let fo = List.fold_left (fun a f -> a + (if f.f_open && not f.f_pad then 1 else 0)) 0 s.s_files in
-  Printf.sprintf "o%d k%d c%d p%d u%d b%s r%s d%d e%d s%d rf%d bl%d mp%d hq%d fo%d mb%d mu%d"
+  Printf.sprintf "o%d k%d c%d p%d u%d b%s r%s d%d e%d s%d rf%d bl%d mp%d hq%d fo%d mb%d mu%d t%d"
     (if s.s_open then 1 else 0) (if is_checking s then 1 else 0) (if is_checked s then 1 else 0)
     (int_of_nat s.s_pos) (match s.s_out with None -> -1 | Some k -> int_of_nat k)
     (bits_str s.s_bits) (bits_str (Some s.s_ranges))
     (if s.s_delay then 1 else 0) (if s.s_errno then 1 else 0) (if s.s_storerr then 1 else 0)
-    refs blk mp (List.length s.s_hq) fo (int_of_nat s.s_mem) (int_of_nat s.s_mem * pl)
+    refs blk mp (List.length s.s_hq) fo (int_of_nat s.s_mem) (int_of_nat s.s_mem * pl) (if s.s_retry then 1 else 0)
 
 let disk_token (f : fnode) =
   if f.f_pad then "P" else
@@ -107,7 +107,8 @@ let () = each_line (fun line ->
        let outs = List.map (fun t ->
            let o = match t.[0] with
              | 'O' -> OOpen | 'C' -> OCheck false | 'Q' -> OCheck true | 'S' | 's' -> OStop | 'X' | 'x' | 'z' -> OClose
-             | 'K' -> OTick | 'W' | 'w' -> ORunAll | 'D' -> ODeliver (nat_of_int (num t))
+             | 'K' -> OTick | 'A' -> OAdvance
+             | 'L' -> if t.[1] = '-' then OLimit None else OLimit (Some (nat_of_int (num t))) | 'W' | 'w' -> ORunAll | 'D' -> ODeliver (nat_of_int (num t))
              | _ -> failwith "op" in
            s := step hfun pln expected !s o;
            if t.[0] = 'z' then "removed" else snapshot pl !s) (split_ws ops) in
